@@ -76,6 +76,7 @@ class Exploration:
     solver_checks: int = 0
     solver_s: float = 0.0
     notes: List[str] = field(default_factory=list)
+    spurious: List[Dict[str, Any]] = field(default_factory=list)
 
 
 class _SolverStats:
@@ -115,6 +116,8 @@ def explore(
     max_paths: int = 10**9,
     on_confirmed: Optional[Callable[[Dict[str, Any], Any], None]] = None,
     sample_when: Optional[Callable[[int], bool]] = None,
+    confirm_refutation: Optional[Callable[[Dict[str, Any]], bool]] = None,
+    max_spurious: int = 6,
 ) -> Exploration:
     """Symbolically execute *harness* over all paths (see module docstring)."""
     SOLVER_STATS.install()
@@ -215,6 +218,17 @@ def explore(
                 out.unknown_reasons["NotDeterministic"] = out.unknown_reasons.get("NotDeterministic", 0) + 1
             _analysis, exhausted = space.bubble_status(CallAnalysis(status))
         if status == VerificationStatus.REFUTED:
+            if confirm_refutation is not None and cex is not None and not confirm_refutation(cex):
+                # the counterexample does not reproduce on the real code: a model of the executor (or a harness stub) is
+                # imprecise on this path.  The path is inconclusive (the leaf was recorded as refuted in the tree, so it is not
+                # revisited); keep looking for a real counterexample elsewhere.
+                out.spurious.append({"args": cex, "failure": (failure or "")[:300]})
+                out.unknown_paths += 1
+                out.unknown_reasons["NotReproducible"] = out.unknown_reasons.get("NotReproducible", 0) + 1
+                if len(out.spurious) >= max_spurious:
+                    out.notes.append("stopped after %d counterexamples that do not reproduce" % len(out.spurious))
+                    break
+                continue
             out.status = "refuted"
             out.counterexample = cex
             out.failure = failure
